@@ -26,13 +26,8 @@ open Panqec.Lat2D Panqec.Color
 def IsC (Lx Ly : Nat) (x y : Int) : Prop :=
   x % 4 = 0 ∧ y % 4 = 0 ∧ 0 ≤ x ∧ x < 8 * (Lx : Int) ∧ 0 ≤ y ∧ y < 8 * (Ly : Int)
 
-def canonFaces (Lx Ly : Nat) : List Coord :=
-  grid (pyRangeStep 0 (8 * (Lx : Int)) 4) (pyRangeStep 0 (8 * (Ly : Int)) 4)
-
-def selFaces (Lx Ly : Nat) : List Coord := (canonFaces Lx Ly).filter fun c => c != [0, 4] && c != [4, 0]
-
-/-- the selected stabilizer locations -/
-def sel (Lx Ly : Nat) : List Coord := both (selFaces Lx Ly)
+/-! `canonFaces`, `selFaces`, `sel` (the selected stabilizer locations): defined in
+    `Model/Lattices/Color488Code.lean` (linked into the driver, op `rankfamily`) -/
 
 theorem mem_canonFaces {Lx Ly : Nat} {q : Coord} :
     q ∈ canonFaces Lx Ly ↔ ∃ x y, q = [x, y] ∧ IsC Lx Ly x y := by
